@@ -48,9 +48,11 @@ SCRIPTS = [
 ]
 
 
-def _run(script_i, fails, slows, preempt, picks):
+def _run(script_i, fails, slows, preempt, picks, second=False):
     """Returns failure signature or ''."""
     TaskHandler, PushService, g_submit, g_flush, g_check, g_push = _stepped_handler()
+    from vlib.stepper import reset_locks
+    reset_locks()
     sched = Sched(preempt=preempt, picks=picks)
     th = TaskHandler.__new__(TaskHandler)
     import threading
@@ -58,6 +60,7 @@ def _run(script_i, fails, slows, preempt, picks):
     th._pending = {}
     th._job_id = 0
     th._lock = threading.Lock()
+    th._accept_lock = threading.Lock()
     th._open = True
     # bind the stepped methods on the instance
     import types
@@ -70,6 +73,7 @@ def _run(script_i, fails, slows, preempt, picks):
     ps.push_snapshot = types.MethodType(g_push, ps)
     runs = {}           # task index -> list of thread names that ran it
     finished = set()
+    state = {"flushed": False, "late": [], "submitted": []}
 
     def make_task(i):
         def body(snapshot):
@@ -87,13 +91,30 @@ def _run(script_i, fails, slows, preempt, picks):
             self.id = i
     events = []
 
+    accepted = []
+
+    def app2():
+        # a second application thread hits a tracepoint at some point (whenever the schedule lets it run)
+        ps2 = PushService.__new__(PushService)
+        ps2.grpc, ps2.task_handler = None, th
+        ps2.push_snapshot = types.MethodType(g_push, ps2)
+        ps2._push_task = make_task(9)
+        try:
+            yield from gen_call(ps2.push_snapshot, Snap(9))
+            accepted.append(9)
+            events.append(("accepted", 9))
+        except BaseException as e:  # noqa
+            if type(e).__module__.startswith("crosshair"):
+                raise
+            events.append(("refused", 9, type(e).__name__))
+
     def app():
-        accepted = []
         for op in SCRIPTS[script_i]:
             if op == "flush":
                 try:
                     yield from gen_call(th.flush)
-                    events.append(("flush-ok", list(accepted), set(runs.keys()), {i: bool(i in finished or fails[i]) for i in accepted}))
+                    state["flushed"] = True
+                    events.append(("flush-ok", list(state["submitted"]), set(runs.keys()), set(finished)))
                 except BaseException as e:  # noqa
                     if type(e).__module__.startswith("crosshair"):
                         raise
@@ -110,8 +131,21 @@ def _run(script_i, fails, slows, preempt, picks):
                     if type(e).__module__.startswith("crosshair"):
                         raise
                     events.append(("refused", i, type(e).__name__))
+    fails = list(fails) + [False] * 7
+    slows = list(slows) + [0] * 7
     app_idx = sched.spawn("app", app())
     th._pool = SimPool(sched, workers=2)
+    pool_submit = th._pool.submit
+
+    def recording_submit(task, *a):
+        idx = a[0].id if a else -1
+        if state["flushed"]:
+            state["late"].append(idx)
+        state["submitted"].append(idx)
+        return pool_submit(task, *a)
+    th._pool.submit = recording_submit
+    if second:
+        sched.spawn("app2", app2())
     done_flags = {}
     try:
         sched.run()
@@ -129,20 +163,22 @@ def _run(script_i, fails, slows, preempt, picks):
             for i in acc_before:
                 if i not in ran_then:
                     return "C09:flush-returned-before-an-accepted-task-ran"
-                if not (i in finished or fails[i]):
+                if not (i in fin or fails[i]):
                     return "C09:flush-returned-before-an-accepted-task-finished"
-        if e[0] == "accepted" and flushed:
+        if e[0] == "accepted" and flushed and not second:
             return "C09:task-accepted-after-flush"
-        if e[0] == "refused" and not flushed:
+        if e[0] == "refused" and not flushed and not second:
             return "C09:task-refused-before-flush"
     for i in accepted:
         r = runs.get(i, [])
         if len(r) != 1:
             return "C09:task-ran-%s" % ("twice" if len(r) > 1 else "never")
-        if r[0] == "app":
+        if r[0] in ("app", "app2"):
             return "C09:task-ran-on-the-application-thread"
         if not fails[i] and i not in finished:
             return "C09:healthy-task-did-not-finish"
+    if state["late"]:
+        return "C09:task-accepted-after-flush"
     for i in runs:
         if i not in accepted:
             return "C09:refused-task-ran-anyway"
@@ -163,6 +199,19 @@ def delivery(si: int, f0: bool, f1: bool, f2: bool, s0: int, s1: int, s2: int, p
     world.begin_path()
     si, f0, f1, f2, s0, s1, s2, t1, k1, k2 = [world.realize(x) for x in (si, f0, f1, f2, s0, s1, s2, t1, k1, k2)]
     return _run(si, [f0, f1, f2], [s0, s1, s2], [(p1, t1)], [k1, k2])
+
+
+def delivery_two_apps(si: int, f0: bool, p1: int, t1: int, p2: int, t2: int) -> str:
+    """
+    A second application thread pushes a snapshot at an arbitrary moment (two pre-emptions at SYMBOLIC steps move control
+    to it and back): when flush returns, every task accepted so far has finished - a push racing with flush is either
+    refused visibly or waited for.
+    PRE: si in (0, 3) and 0 <= p1 <= 50 and 0 <= t1 <= 3 and p1 < p2 <= 60 and 0 <= t2 <= 3
+    POST: _ == ""
+    """
+    world.begin_path()
+    si, f0, t1, t2 = [world.realize(x) for x in (si, f0, t1, t2)]
+    return _run(si, [f0, False, False], [0, 0, 0], [(p1, t1), (p2, t2)], [0], second=True)
 
 
 def delivery2(si: int, f0: bool, f1: bool, s0: int, s1: int, p1: int, t1: int, p2: int, t2: int, k1: int) -> str:
@@ -236,16 +285,22 @@ MUTANTS = {"callback_keeps_pending": _mut_callback_keeps_pending, "flush_reraise
 CONDITIONS = [
     dict(fn="delivery", cubes={"quick": ["si == %d and t1 == %d and f0 == %s and s0 == 0 and s1 == 0 and s2 == 0 and not f2 and k1 == 0 and k2 == 0" % (s, t, f)
                                          for s in (0, 1, 2, 3, 5) for t in range(3) for f in ("True", "False")],
-                               "thorough": ["si == %d and t1 == %d and f0 == %s and f1 == %s and s0 == %d and s2 == 0 and k2 == 0" % (s, t, f, g, sl)
-                                            for s in range(6) for t in range(3) for f in ("True", "False") for g in ("True", "False") for sl in range(3)]},
+                               "thorough": ["si == %d and t1 == %d and f0 == %s and f1 == %s and s0 == %d and s1 == 0 and s2 == 0 and not f2 and k1 == 0 and k2 == 0" % (s, t, f, g, sl)
+                                            for s in range(6) for t in range(3) for f in ("True", "False") for g in ("True", "False") for sl in (0, 1)]},
          twins=["reach", "mutant:callback_keeps_pending@si == 3 and t1 == 0 and f0 == False and s0 == 0 and s1 == 0 and s2 == 0 and not f2 and k1 == 0 and k2 == 0",
                 "mutant:flush_reraises@si == 0 and t1 == 1 and f0 == True and s0 == 0 and s1 == 0 and s2 == 0 and not f2 and k1 == 0 and k2 == 0"],
          timeout={"quick": 240, "thorough": 900},
          bounds="quick: 5 application scripts (1-2 pushes, flush at any position, push after flush), each task failing or not; one pre-emption at a SYMBOLIC step "
                 "index (0..70, partitioned by the solver over the steps actually taken) to any of the 3 threads; thorough: 6 scripts (up to 3 pushes), tasks slow by 0-2 steps, "
                 "symbolic picks at forced switches"),
-    dict(fn="delivery2", cubes={"quick": [], "thorough": ["si == %d and t1 == %d and t2 == %d" % (s, a, b) for s in range(4) for a in range(3) for b in range(3)]},
-         twins=[], timeout={"quick": 240, "thorough": 900}, bounds="thorough only: two pre-emptions at symbolic step indexes"),
+    dict(fn="delivery_two_apps", cubes={"quick": ["si == 3 and t1 == 3 and t2 == %d and f0 == False" % b for b in (0, 1)],
+                                        "thorough": ["si == %d and t1 == %d and t2 == %d and f0 == False" % (s, a, b) for s in (0, 3) for a in (0, 3) for b in range(4)]},
+         twins=["reach", "mutant:flush_keeps_open@si == 3 and t1 == 3 and t2 == 0 and f0 == False"], timeout={"quick": 240, "thorough": 900},
+         bounds="application thread (push, flush) + a second application thread pushing once + 2 workers; two pre-emptions at symbolic steps "
+                "(quick: the first one to the second application thread)"),
+    dict(fn="delivery2", cubes={"quick": [], "thorough": ["si == %d and t1 == %d and t2 == %d and f0 == False and f1 == %s and s0 == 0 and s1 == 0 and k1 == 0 and p1 <= 40 and p2 <= 50" % (s, a, b, g)
+                                             for s in (0, 3) for a in (1, 2) for b in (0, 1) for g in ("True", "False")]},
+         twins=[], timeout={"quick": 240, "thorough": 900}, bounds="thorough only: two pre-emptions at symbolic step indexes (first <= 40, second <= 50)"),
 ]
 
 
